@@ -176,6 +176,26 @@ int cmdRandom(int argc, char** argv) {
 		e.add("e", "rotvec").raw("v", jv(v)).raw("v2", jv(v2)).raw("M", jm(M)).raw("avg", jm(avg)).add("angle", sc(angle));
 		out.line(e.done());
 	}
+	// rotation vectors of any length (up to four turns): the matrix is orthonormal, and whole turns do not matter - it is the
+	// matrix of the vector brought into (-pi, pi] about the same axis
+	for (size_t k = 0; k < count; k++) {
+		Vector3 ax(float(U(rng)), float(U(rng)), float(U(rng)));
+		if (ax.length() < 1e-3f) ax = Vector3(1, 0, 0);
+		ax.Normalize();
+		double angle;
+		switch (k % 4) {
+			case 0: angle = PI_D + (U(rng) + 1) * 0.5 * PI_D; break;			// (half turn, full turn)
+			case 1: angle = 2 * PI_D + 0.002 + (U(rng) + 1) * 0.05; break;		// just beyond a full turn
+			case 2: angle = 2 * PI_D * (1 + (U(rng) + 1) * 1.5); break;			// one to four turns
+			default: angle = 2 * PI_D * double(1 + k % 3) - 0.002 - (U(rng) + 1) * 0.05; break; // just below a whole number of turns
+		}
+		double wrapped = std::remainder(angle, 2 * PI_D);
+		Matrix3 M = RotVecToMat(ax * float(angle));
+		Matrix3 Mr = RotVecToMat(ax * float(wrapped));
+		JObj e;
+		e.add("e", "rotany").raw("M", jm(M)).raw("Mr", jm(Mr)).add("angle", sc(angle)).add("wrapped", sc(wrapped));
+		out.line(e.done());
+	}
 	// point sets: duplicates, collinear, single, clustered far from the origin
 	for (size_t k = 0; k < count; k++) {
 		size_t n = 1 + rng() % 12;
